@@ -17,7 +17,7 @@ RULE = ("for each configuration (outputs file / devlog / stdout / devnull / sock
         "from a dry run) and for k beyond N (fork with no thread inside the library); the main thread then fork()s; the child "
         "performs an exec (scripted failing and real), directly or after forking once more (depth 2). Oracle: the child's call "
         "reaches the real exec and its record appears; a lock attempt in the single-threaded child on a mutex that trylock reports "
-        "busy is a deterministic deadlock verdict, and so is a child found asleep in futex() at the 10 s backstop (a single-threaded child has nobody to wake it); a backstop hit without that is inconclusive, never a verdict; afterwards the "
+        "busy is a deterministic deadlock verdict, and so is a child found asleep at the 10 s backstop (in futex(): a single-threaded child has nobody to wake it; or in any other system call at two looks 300 ms apart without having used CPU time); a backstop hit without that is inconclusive, never a verdict; afterwards the "
         "parked thread and the parent complete their own calls with correct records. non-trivial = the fork was taken while the "
         "second thread was parked inside the call; distinct by (k, output, depth, real)")
 
@@ -74,8 +74,11 @@ def run_case(d, c):
     if status == "timeout-futex":
         raise Failure("child of fork() is asleep in futex() for 10 s with nobody to wake it: its exec call blocks on a lock inherited from the parent (%s)" % what,
                       {"parked_in_call": bool(parked)}, key="deadlock")
+    if status.startswith("timeout-blocked:"):
+        raise Failure("child of fork() is asleep in system call %s for 10 s without using any CPU time: its exec call does not complete (%s)" % (status.split(":")[1], what),
+                      {"parked_in_call": bool(parked)}, key="deadlock")
     if status == "timeout":
-        raise Inconclusive("child's exec call did not complete within 10 s, but it is not blocked on a lock (%s)" % what)
+        raise Inconclusive("child's exec call did not complete within 10 s, but it is not asleep either (%s)" % what)
     if status != "ok" or not res.clean:
         raise Failure("child or parent ended abnormally: %s (%s)" % (status, what), {"result": res.describe(), "errors": res.errors(),
                                                                                       "sanitizer": [r[:1500] for r in reports[:1]]}, key="abnormal")
@@ -194,6 +197,9 @@ def delay_eval(os_, events, shape, inj):
     inside, status = int(f[1]), f[3].decode()
     if status == "timeout-futex":
         raise Failure("child of fork() is asleep in futex() for 10 s with nobody to wake it: its exec call blocks on state inherited from the parent (%s)" % what,
+                      {"second_thread_inside_its_call_at_fork": bool(inside)}, key="deadlock-libc")
+    if status.startswith("timeout-blocked:"):
+        raise Failure("child of fork() is asleep in system call %s for 10 s without using any CPU time: its exec call does not complete (%s)" % (status.split(":")[1], what),
                       {"second_thread_inside_its_call_at_fork": bool(inside)}, key="deadlock-libc")
     if status != "ok":
         raise Inconclusive("child: %s (%s)" % (status, what))
